@@ -163,9 +163,48 @@ class Fn:
         self._succ = None
         self._pred = None
         self._expr_cache = {}
+        self._new_let = {}
 
     def __repr__(self):
         return "<Fn %s>" % self.norm
+
+    def is_new_let(self, local):
+        """A `let` the pinned tree does not have in this function (by name): immutable, defined once, either
+        computed (an expression / call result given a name) or a plain alias of a field path of `self` or of a
+        parameter.  Such a variable is looked through, so that introducing a name for a sub-expression does
+        not change what the rules see."""
+        key = self.norm if self.kind != "Closure" else (self.root or self.norm)
+        known = CANON_VARS.get(key)
+        if known is None:
+            return False
+        if local in self._new_let:
+            return self._new_let[local]
+        res = False
+        nm = None
+        for n_, l, pj in self.var_places:
+            if l == local and not pj:
+                nm = re.sub(r"__\d+$", "", n_)
+        if nm is not None and nm not in known and local > self.arg_count and not self.locals[local]["mut"]:
+            ds = [d for d in self.defs(local)]
+            if len(ds) == 1 and ds[0][0] in ("assign", "call"):
+                if ds[0][0] == "call":
+                    res = True
+                else:
+                    rv = ds[0][3]
+                    if rv["k"] in ("binop", "unop", "cast", "agg", "repeat"):
+                        res = True
+                    elif rv["k"] in ("use", "ref") and (rv.get("op", {}).get("k") in ("copy", "move") or rv["k"] == "ref"):
+                        pl = rv["op"]["place"] if rv["k"] == "use" else rv["place"]
+                        root_is_param = 1 <= pl["local"] <= self.arg_count
+                        pure_fields = all(e.get("k") in ("deref", "field") for e in pl["proj"])
+                        root_is_temp = pl["local"] > self.arg_count and not self.locals[pl["local"]]["user"]
+                        # an alias of a field path of self / a parameter, or the value of a compiler temporary
+                        # (the result of checked arithmetic, of a call ...)
+                        res = bool((root_is_param and pure_fields and pl["proj"]) or (root_is_temp and pure_fields))
+                    elif rv["k"] == "use" and rv["op"].get("k") == "const":
+                        res = True
+        self._new_let[local] = res
+        return res
 
     def is_desugar_binding(self, local):
         """`val` / `residual` bound by the desugaring of `?` (compiler-made, not a variable the author
@@ -524,6 +563,47 @@ class Program:
 MAX_DEPTH = 40
 
 
+# ------------------------------------------------------------------ pin-guided canonical forms
+# Set by the engine from the pin table (sa/known_fns.json); empty = no canonicalisation (used when the
+# pin table itself is generated).  CANON_BINOPS[fn] = keys of the two-operand expressions the function
+# has at the pin; CANON_VARS[fn] = names of its user variables at the pin.
+CANON_BINOPS = {}
+CANON_VARS = {}
+INT_TYPES = ("u8", "u16", "u32", "u64", "u128", "usize", "i8", "i16", "i32", "i64", "i128", "isize", "bool")
+COMMUTATIVE = ("call:min", "call:max", "Add", "Mul", "BitAnd", "BitOr", "BitXor", "Eq", "Ne", "AddWithOverflow", "MulWithOverflow", "AddUnchecked", "MulUnchecked")
+MIRRORED = {"Lt": "Gt", "Gt": "Lt", "Le": "Ge", "Ge": "Le"}
+CMP_ALIASES = {"core::cmp::min": "core::cmp::Ord::min", "std::cmp::min": "core::cmp::Ord::min", "core::cmp::max": "core::cmp::Ord::max", "std::cmp::max": "core::cmp::Ord::max", "std::cmp::Ord::min": "core::cmp::Ord::min", "std::cmp::Ord::max": "core::cmp::Ord::max"}
+
+
+def set_canon(binops, vars_):
+    CANON_BINOPS.clear()
+    CANON_BINOPS.update(binops or {})
+    CANON_VARS.clear()
+    CANON_VARS.update(vars_ or {})
+
+
+def binop_key(op, a, b):
+    return "%s|%s|%s" % (op, expr_str(a)[:160], expr_str(b)[:160])
+
+
+def _canon_binop(fn, op, a, b):
+    """`b op' a` when the pinned tree wrote the same computation that way (commuted operands, mirrored
+    comparison); otherwise as written."""
+    keys = CANON_BINOPS.get(fn.root or fn.norm) if fn.kind == "Closure" else CANON_BINOPS.get(fn.norm)
+    if keys is None and fn.kind == "Closure":
+        keys = CANON_BINOPS.get(fn.norm)
+    if not keys:
+        return op, a, b
+    op2 = op if op in COMMUTATIVE else MIRRORED.get(op)
+    if op2 is None:
+        return op, a, b
+    if binop_key(op, a, b) in keys:
+        return op, a, b
+    if binop_key(op2, b, a) in keys:
+        return op2, b, a
+    return op, a, b
+
+
 class ExprBuilder:
     def __init__(self, prog, fn, inline=True, user_stop=False):
         self.prog = prog
@@ -623,7 +703,7 @@ class ExprBuilder:
             return self.memo[key]
         if local in stack or depth > MAX_DEPTH:
             return ("cycle", local)
-        if self.user_stop and fn.locals[local]["user"] and local != 0 and not fn.is_desugar_binding(local):
+        if self.user_stop and fn.locals[local]["user"] and local != 0 and not fn.is_desugar_binding(local) and not fn.is_new_let(local):
             r = ("place", place_to_str(fn, local, []), fn.locals[local]["ty"])
             self.memo[key] = r
             return r
@@ -686,6 +766,19 @@ class ExprBuilder:
         else:
             decl = None
             res = None
+        if decl in CMP_ALIASES and len(args) == 2:
+            # cmp::min(a, b) is a.min(b); operand order as the pinned tree wrote it
+            decl = CMP_ALIASES[decl]
+            res = None if res is None or res in CMP_ALIASES else res
+            _op, a_, b_ = _canon_binop(self.fn, "call:" + decl.split("::")[-1], args[0], args[1])
+            args = (a_, b_)
+        if decl in ("core::convert::From::from", "std::convert::From::from", "core::convert::Into::into", "std::convert::Into::into") and len(args) == 1:
+            # a lossless integer conversion spelled `T::from(x)` / `x.into()` is the cast `x as T`
+            to = t["dest"]["ty"]
+            a0 = t["args"][0]
+            frm = a0.get("place", {}).get("ty") if a0.get("k") in ("copy", "move") else a0.get("ty")
+            if to in INT_TYPES and frm in INT_TYPES:
+                return ("cast", "IntToInt", args[0], to)
         e = ("call", decl, res, args, (b, t["span"]["line"], t["dest"]["ty"]), f)
         if self.inline:
             e2 = self.prog.inline_getter(e)
@@ -702,7 +795,8 @@ class ExprBuilder:
         if k == "rawptr":
             return ("ref", r["mutbl"], self.place(r["place"], depth, stack))
         if k == "binop":
-            return ("binop", r["op"], self.operand(r["a"], depth, stack), self.operand(r["b"], depth, stack))
+            op, a, b = _canon_binop(self.fn, r["op"], self.operand(r["a"], depth, stack), self.operand(r["b"], depth, stack))
+            return ("binop", op, a, b)
         if k == "unop":
             return ("unop", r["op"], self.operand(r["a"], depth, stack))
         if k == "cast":
@@ -883,6 +977,8 @@ def calls_in(e):
 
 
 def callee_name(c):
+    if not isinstance(c, tuple) or not c or c[0] != "call":
+        return None  # e.g. a lossless From/Into conversion rendered as a cast, an inlined getter
     return c[2] or c[1]
 
 
